@@ -144,8 +144,11 @@ def run_case(case: dict[str, Any]) -> CaseOut:
         msg = case['msg']
         kws = b' '.join(case['keywords'])
         send(b'APPEND INBOX (' + kws + b') ' + _lit(msg))
-        send(b'APPEND INBOX (\\Seen) "01-Jan-2020 10:00:00 +0000" '
-             + _lit(msg))
+        # years that need zero padding to stay four digits, and the largest
+        when = [b'01-Jan-2020 10:00:00 +0000', b' 1-Jan-0099 00:00:00 +0000',
+                b'31-Dec-9999 23:59:59 -1200', b'01-Jan-0001 00:00:00 +0000',
+                b'07-Feb-0999 13:00:00 +0530'][case['hspell'] % 5]
+        send(b'APPEND INBOX (\\Seen) "' + when + b'" ' + _lit(msg))
         send(b'SELECT INBOX')
         send(b'FETCH 1:* (FLAGS UID INTERNALDATE RFC822.SIZE ENVELOPE)')
         send(b'FETCH 1 (BODY BODYSTRUCTURE)')
